@@ -494,6 +494,25 @@ def recursive_templates(rng, draft, leaf):
     yield "metaschema", {"properties": {"s": {"$ref": "http://json-schema.org/draft-0%d/schema#" % draft}}}, {}
 
 
+def with_ref_siblings(rng, draft, node, p=0.7):
+    """A copy of `node` in which reference objects also carry asserting keywords (which drafts up to 7 say are
+    ignored).  The draft's own id keyword is never added (known finding: it changes the base)."""
+    pool = [("type", "null"), ("enum", ["vf-never"]), ("maxItems", 0), ("minimum", 10 ** 9), ("maxLength", 0), ("pattern", "^vf-never$")]
+    pool += [("maxProperties", 0), ("not", {}), ("required", ["vf-missing"]), ("allOf", [{"type": "null"}])] if draft >= 4 else \
+            [("disallow", ["any"]), ("extends", {"type": "null"}), ("divisibleBy", 10 ** 9 + 7)]
+    if draft >= 6:
+        pool += [("const", "vf-never"), ("propertyNames", False), ("contains", False)]
+    if isinstance(node, list):
+        return [with_ref_siblings(rng, draft, x, p) for x in node]
+    if not isinstance(node, dict):
+        return node
+    out = {k: with_ref_siblings(rng, draft, v, p) for k, v in node.items()}
+    if isinstance(node.get("$ref"), str) and rng.random() < p:
+        for k, v in rng.sample(pool, rng.randrange(1, 4)):
+            out.setdefault(k, v)
+    return out
+
+
 def recursive_instance(rng, leafgen, depth):
     """Instances shaped like the templates (head/next/kids/v/b/back/self/s)."""
     if depth <= 0:
